@@ -137,13 +137,13 @@ def obligations(tier: str) -> List[Obligation]:
     for h, f in combos:
         shape = {'datagrams': list(h) + [f]}
         oid = 'ingest[' + ' | '.join(shape['datagrams']) + ']'
-        obs.append(Obligation(oid, make(shape), 'ingest', shape, timeout=90 if tier == 'quick' else 240))
+        obs.append(Obligation(oid, make(shape), 'ingest', shape, timeout=90 if tier == 'quick' else 700))
     variants = [(['A1+'], 'A2+ P1'), (['P1 S1+ T1+ A1+'], 'P1 T1b+')]
     for h, f in variants:
         for ls in (['spawn', 'plain'], ['leave', 'plain'], ['leave', 'spawn', 'plain']):
             shape = {'datagrams': list(h) + [f], 'listeners': ls}
             oid = 'listeners[' + ' | '.join(shape['datagrams']) + ' ; ' + ','.join(ls) + ']'
-            obs.append(Obligation(oid, make(shape), 'listeners', shape, timeout=90 if tier == 'quick' else 240))
+            obs.append(Obligation(oid, make(shape), 'listeners', shape, timeout=90 if tier == 'quick' else 700))
     return obs
 
 
